@@ -595,14 +595,8 @@ FINE_INVS = {"C01": ["NoOverlap", "HeldAllocated"], "C03": ["NoPanic", "PutsOk"]
 
 def fine_schedule(out):
     """access schedule (thread per access) of a TLC error trace"""
-    import re
-    sched, last = [], 0
-    for m in re.finditer(r"lastop = \[ *seq \|-> (\d+),\s*t \|-> (-?\d+)", out):
-        seq, t = int(m.group(1)), int(m.group(2))
-        if seq > last:
-            sched.append(t)
-            last = seq
-    return sched
+    import freeze
+    return freeze.schedule_of_trace(out)
 
 
 def fine_stage(res, tier, seed, prop):
@@ -711,6 +705,76 @@ def check_c05_fine(prop, tier, seed):
 
 
 PLANS["C05"] = check_c05_fine
+
+
+# ---------------------------------------------------------------------------
+# C21 on the FINE model: Freeze at every reachable state (bin/freeze.py)
+# ---------------------------------------------------------------------------
+FREEZE_QUICK = {"th4": ["L1", "L2", "L3", "L4", "L5", "L6", "L8", "U1", "U7"], "th1": ["U4", "U5", "U5b", "U9", "U11", "U12", "L7"]}
+_old_c21 = check_c21
+
+
+def freeze_stage(res, tier, seed, prop):
+    import freeze
+    from concurrent.futures import ThreadPoolExecutor
+    plan = FREEZE_QUICK if tier == "quick" else FINE_THOROUGH
+    work = [(g, n) for g, ns in plan.items() for n in ns]
+    fz = {"scenarios": 0, "states": 0, "generated": 0, "bound_accesses": freeze.FBOUND, "violations_replayed": [], "timeouts": []}
+
+    def one(gn):
+        return freeze.run(gn[1], gn[0], workers=4, timeout=1200 if tier == "quick" else 5400)
+
+    with ThreadPoolExecutor(max_workers=4) as ex:
+        rs = [r for r in ex.map(one, work) if r]
+    for r in rs:
+        fz["scenarios"] += 1
+        fz["states"] += r["states"]
+        fz["generated"] += r["generated"]
+        if r["result"] == "timeout":
+            fz["timeouts"].append({"scn": r["scn"], "geo": r["geo"]})
+            res.notes.append("FINE Freeze run of %s (%s) did not finish within the time limit (inconclusive)" % (r["scn"], r["geo"]))
+        elif r["result"] == "error":
+            raise vlib.ToolError("FINE Freeze model check failed for %s/%s:\n%s" % (r["scn"], r["geo"], r.get("detail")))
+        elif r["result"].startswith("violated"):
+            # believed only if the real code, run along the counterexample's schedule, yields a solo event TraceAbs rejects
+            out = os.path.join(vlib.WORK, "freeze-replay-%s-%s-%d.ndjson" % (r["scn"], r["geo"], os.getpid()))
+            vlib.harness(r["geo"], ["conc", "scn=" + SCN, "name=" + r["scn"], "asched=" + ",".join(map(str, r["sched"])),
+                                    "solot=%d" % r["frozen"], "solofrom=%d" % r["before"], "maxsteps=30000",
+                                    "out=" + out, "props=" + prop])
+            v = vlib.validate_file(out, [prop])
+            os.unlink(out)
+            mine = [f for f in v["failures"] if f["prop"] == prop]
+            fz["violations_replayed"].append({"scn": r["scn"], "geo": r["geo"], "invariant": r["result"], "thread": r["frozen"],
+                                              "freeze_after_accesses": r["before"], "reproduced_on_code": bool(mine)})
+            if mine:
+                for f in mine:
+                    f["detail"] = {"fine_invariant": r["result"], "access_schedule": r["sched"], "solo_thread": r["frozen"],
+                                   "freeze_after_accesses": r["before"]}
+                res.add_failures(mine)
+            else:
+                log("MODEL-DRIFT: FINE Freeze invariant %s fails in scenario %s (%s) but the real code's solo run along that "
+                    "schedule satisfies C21: the model is stale" % (r["result"], r["scn"], r["geo"]))
+    res.cov["states"] += fz["states"]
+    res.cov["transitions"] += fz["generated"]
+    res.cov["fine_freeze"] = fz
+    res.notes.append("FINE model with Freeze (bin/freeze.py): from EVERY reachable state of EVERY interleaving of %d scenarios (%d "
+                     "distinct states incl. the solo continuations) every thread with a call in flight, run alone, ends its call "
+                     "within %d accesses and without a panic (SoloBounded, SoloReturns)" % (fz["scenarios"], fz["states"], freeze.FBOUND))
+    return fz
+
+
+def check_c21_freeze(prop, tier, seed):
+    res = _old_c21(prop, tier, seed)
+    if not vlib.STOP.is_set():
+        freeze_stage(res, tier, seed, prop)
+        res.cov["rule"] += ("; plus the FINE model extended by a Freeze step (spec MFgen_* generated by bin/freeze.py from "
+                            "spec/LLFree.tla): TLC visits every reachable state of every interleaving of the scenarios, freezes "
+                            "all threads but one there and checks that this thread's call ends within the bound and without a "
+                            "panic; a counterexample is replayed on the real code and decided by TraceAbs!Solo")
+    return res
+
+
+PLANS["C21"] = check_c21_freeze
 
 
 def synth_jobs(tier, seed, geos, extra=(), sample=None, only=None):
